@@ -125,8 +125,23 @@ def call_function(ctx, fr_outer, fn, args, kwargs=None, owner=None, cells=None):
         return ctx.stubs[fn](ctx, fr_outer, list(args), dict(kwargs or {}))
     node = fn_ast(fn)
     ctx.funcs_seen.add(fn)
+    stack = ctx.__dict__.setdefault("call_stack", [])
+    if has_while(node) and ctx.__dict__.get("path_assumptions"):
+        # loops are expensive to unroll: enter only if the path is feasible from the assumed pre-state
+        if not feasible(ctx, live(ctx, fr_outer)):
+            return None
+    if fn in stack or ctx.depth > 25:
+        # re-entering a function that is already active: descend only if the path is feasible
+        # (path merging keeps syntactically live guards that are logically contradictory)
+        if not feasible(ctx, live(ctx, fr_outer)):
+            return None
+        if stack.count(fn) >= ctx.__dict__.get("rec_limit", 4):
+            bound_if(ctx, fr_outer, True, "recursion deeper than %d in %s" % (
+                ctx.__dict__.get("rec_limit", 4), fn.__qualname__))
+            return None
     ctx.depth += 1
-    if ctx.depth > 60:
+    stack.append(fn)
+    if ctx.depth > 80:
         raise Unsupported("call depth exceeded at %s" % fn.__qualname__)
     fr = Frame(fn, live(ctx, fr_outer), fn.__globals__, owner, cells)
     fr.parent = fr_outer
@@ -142,11 +157,36 @@ def call_function(ctx, fr_outer, fn, args, kwargs=None, owner=None, cells=None):
                  if not isinstance(n, (ast.FunctionDef, ast.Lambda)) or n is node)
     if is_gen:
         fr.yields = []
-    exec_block(ctx, fr, node.body)
-    ctx.depth -= 1
+    try:
+        exec_block(ctx, fr, node.body)
+    finally:
+        ctx.depth -= 1
+        stack.pop()
     if is_gen:
         return gen_result(ctx, fr)
     return fr.ret if fr.has_ret else None
+
+
+_HAS_WHILE = {}
+
+
+def has_while(node):
+    if node not in _HAS_WHILE:
+        _HAS_WHILE[node] = any(isinstance(n, ast.While) for n in ast.walk(node))
+    return _HAS_WHILE[node]
+
+
+def feasible(ctx, g):
+    if g is False:
+        return False
+    if g is True:
+        return True
+    s = z3.Solver()
+    s.set("timeout", 20000)
+    for a in ctx.__dict__.get("path_assumptions", []):
+        s.add(a)
+    s.add(g)
+    return str(s.check()) != "unsat"
 
 
 def gen_result(ctx, fr):
@@ -574,6 +614,11 @@ def ev_truth(ctx, fr, e):
 
 def truth_of(ctx, fr, v):
     from vf.e1 import ops as _o
+    from vf.e1 import nsmodel as _NS
+    if isinstance(v, _NS.NSObj):
+        return NE(v.t, NONE_ID)
+    if isinstance(v, _NS.NSManagerDict):
+        return True
     if isinstance(v, (HeapSet, PinMap, HeapData, _o.SDict)):
         from vf.e1.calls import h_len
         return GT(raw_int(h_len(ctx, fr, [v], {})), 0)
@@ -790,6 +835,8 @@ def get_attr(ctx, fr, obj, name):
     if obj is None:
         raise_if(ctx, fr, True, "AttributeError")
         return None
+    if isinstance(obj, Local) and "__fwd__" in obj.f:
+        return get_attr(ctx, fr, obj.f["__fwd__"], name)
     if isinstance(obj, Local):
         if name in obj.f:
             return obj.f[name]
@@ -840,6 +887,20 @@ def get_attr(ctx, fr, obj, name):
                     return ops.NOOP
                 return a
         raise Unsupported("super().%s" % name)
+    from vf.e1 import nsmodel as NS
+    if isinstance(obj, NS.NSObj):
+        if name == "namespaces":
+            return NS.NSTypeDict(obj.t, "name")
+        if name == "edif_namespaces":
+            return NS.NSTypeDict(obj.t, "edif")
+        a, owner = mro_lookup(ctx.ns_policy_cls, name)
+        if isinstance(a, types.FunctionType):
+            return BoundMethod(a, obj, owner)
+        if isinstance(a, classmethod):
+            return BoundMethod(a.__func__, ctx.ns_policy_cls, owner)
+        raise Unsupported("namespace attribute %s" % name)
+    if isinstance(obj, (NS.NSManagerDict, NS.NSTypeDict, NS.NSNameDict)):
+        return SymMethod(obj, name)
     if isinstance(obj, (SList, HeapSet, PinMap, HeapData, SAtom, SInt, SBool, PyIter, ops.SDict)):
         return SymMethod(obj, name)
     if isinstance(obj, type) and (id(obj), name) in ctx.attr_over:
@@ -1019,9 +1080,21 @@ def write_field(ctx, fr, ref, name, v):
         if len(cs) > 1:
             raise Unsupported("list field write on mixed classes")
         sl = ops.as_slist(ctx, fr, v)
+        src_home = getattr(sl, "home", None)
         sl = compact(sl)
+        # re-binding the field ends earlier aliases of its list object ...
+        al = ctx.__dict__.setdefault("aliases", [])
+        for a in al:
+            for side in (0, 1):
+                c_, f_, t_ = a[side]
+                if (c_, f_) == (cs[0], name):
+                    a[2] = AND(a[2], NOT(AND(g, EQ(t_, ref.t))))
         over = h.write_list(g, cs[0], name, ref.t, sl)
         bound_if(ctx, fr, over, "list capacity exceeded writing %s.%s" % (cs[0], name))
+        # ... and storing another object's list BY REFERENCE makes the two fields share one list
+        if src_home is not None and isinstance(v, SList) and v.home is not None:
+            _, c2, f2, t2 = src_home
+            al.append([(cs[0], name, ref.t), (c2, f2, t2), g])
         return
     cs = [c for c in ref.cands if (c, name) in h.sc]
     if not cs:
